@@ -11,6 +11,9 @@ pub struct Migrator {
     string: String,
     line: u32,
     column: u32,
+    /// Set while walking tokens that are dropped from the output: their
+    /// comments are still emitted.
+    drop_token: bool,
 }
 
 impl Default for Migrator {
@@ -21,6 +24,7 @@ impl Default for Migrator {
             string: String::new(),
             line: 1,
             column: 1,
+            drop_token: false,
         }
     }
 }
@@ -47,6 +51,14 @@ impl Migrator {
     }
 
     fn push_token(&mut self, x: &Token) {
+        let text = resource_table::get_str_value(x.text).unwrap();
+        self.push_token_as(x, &text);
+    }
+
+    /// Emit `text` at the position of token `x`. Column bookkeeping follows the
+    /// source token, so the spacing of the following tokens is unchanged even
+    /// when `text` is longer than the source token.
+    fn push_token_as(&mut self, x: &Token, text: &str) {
         let newlines = x.line.saturating_sub(self.line);
         self.line = x.line;
         if newlines > 0 {
@@ -60,22 +72,25 @@ impl Migrator {
         }
         self.str(&" ".repeat(spaces as usize));
 
-        let text = resource_table::get_str_value(x.text).unwrap();
-
-        let newlines_in_text = text.matches('\n').count() as u32;
+        // Token columns count characters, not bytes.
+        let src_text = resource_table::get_str_value(x.text).unwrap();
+        let newlines_in_text = src_text.matches('\n').count() as u32;
         self.line += newlines_in_text;
-        let len = text.len() - text.rfind('\n').map(|x| x + 1).unwrap_or(0);
+        let last_line = &src_text[src_text.rfind('\n').map(|x| x + 1).unwrap_or(0)..];
+        let len = last_line.chars().count();
         if newlines_in_text > 0 {
-            self.column = 1;
+            self.column = 1 + len as u32;
         } else {
             self.column += len as u32;
         }
 
-        self.str(&text);
+        self.str(text);
     }
 
     fn token(&mut self, x: &VerylToken) {
-        self.push_token(&x.token);
+        if !self.drop_token {
+            self.push_token(&x.token);
+        }
 
         for x in &x.comments {
             self.push_token(x);
@@ -93,9 +108,27 @@ impl VerylWalker for Migrator {
         self.token(arg);
     }
 
+    fn identifier(&mut self, arg: &Identifier) {
+        // `mixin` became a keyword; keep the name as a raw identifier.
+        let token = &arg.identifier_token;
+        if !self.drop_token && token.token.to_string() == "mixin" {
+            self.push_token_as(&token.token, "r#mixin");
+            for x in &token.comments {
+                self.push_token(x);
+            }
+        } else {
+            self.token(token);
+        }
+    }
+
     fn for_statement(&mut self, arg: &ForStatement) {
         self.r#for(&arg.r#for);
         self.identifier(&arg.identifier);
+        // The index type is dropped, comments attached to its tokens are kept.
+        self.drop_token = true;
+        self.colon(&arg.colon);
+        self.scalar_type(&arg.scalar_type);
+        self.drop_token = false;
         self.r#in(&arg.r#in);
         if let Some(ref x) = arg.for_statement_opt {
             self.rev(&x.rev);
